@@ -3,7 +3,6 @@ package main
 import (
 	"container/heap"
 	"fmt"
-	"os"
 	"sync"
 	"time"
 	"go/token"
@@ -100,6 +99,8 @@ type State struct {
 	decCache map[int]*Str
 	colls    map[string]*collStore
 	pagedRequests int
+	curEnv   int
+	envN     int
 }
 
 func (st *State) curFnOr(cc *ssa.CallCommon) *ssa.Function {
@@ -236,7 +237,15 @@ func (fr *frame) get(v ssa.Value) value {
 	case nil:
 		return nil
 	case *ssa.Const:
-		return constValue(v)
+		if c, ok := constCache.Load(v); ok {
+			return c
+		}
+		c := constValue(v)
+		switch c.(type) {
+		case *Term, *Str:
+			constCache.Store(v, c) // immutable values only
+		}
+		return c
 	case *ssa.Function:
 		return &closure{Fn: v}
 	case *ssa.Builtin:
@@ -334,23 +343,36 @@ func (st *State) runInit(p *ssa.Package) {
 	st.callFunction(nil, init, nil, nil)
 }
 
+type fnInfo struct {
+	name string
+	in   intrinsic
+}
+
+var fnCache sync.Map // *ssa.Function -> *fnInfo
+var constCache sync.Map
+
+func (e *Engine) info(fn *ssa.Function) *fnInfo {
+	if x, ok := fnCache.Load(fn); ok {
+		return x.(*fnInfo)
+	}
+	fi := &fnInfo{name: fn.String()}
+	if in, ok := e.intrinsics[fi.name]; ok {
+		fi.in = in
+	} else if o := fn.Origin(); o != nil {
+		if in, ok := e.intrinsics[o.String()]; ok {
+			fi.in = in
+		}
+	}
+	fnCache.Store(fn, fi)
+	return fi
+}
+
 func (st *State) callFunction(caller *frame, fn *ssa.Function, args []value, cc *ssa.CallCommon) value {
-	name := fn.String()
-	if fn.Origin() != nil {
-		// keep instantiated name too
-	}
-	if in, ok := st.e.intrinsics[name]; ok {
+	fi := st.e.info(fn)
+	name := fi.name
+	if fi.in != nil {
 		st.curFn = fn
-		return in(st, caller, args, cc)
-	}
-	if o := fn.Origin(); o != nil {
-		if os.Getenv("GOSX_DEBUG") != "" && strings.Contains(name, "collections") {
-			fmt.Println("ORIGIN", name, "=>", o.String())
-		}
-		if in, ok := st.e.intrinsics[o.String()]; ok {
-			st.curFn = fn
-			return in(st, caller, args, cc)
-		}
+		return fi.in(st, caller, args, cc)
 	}
 	if st.initing > 0 && (fn.Pkg == nil || !isOrbPkg(fn.Pkg.Pkg.Path())) {
 		return zero(fn.Signature.Results()) // init mode: foreign calls are skipped
